@@ -290,7 +290,7 @@ func (h *HttpServer) handleStreamInit(w http.ResponseWriter, r *http.Request) {
 		handlerErr = err
 		if err == nil && !finished {
 			// Batch limit reached — append continuation token
-			token, tokenErr := h.packCursorToken(callID, state, auth)
+			token, tokenErr := h.packMethodCursorToken(info.Name, callID, state, auth)
 			callToken, callErr := h.packCallToken(callID, outputSchema, auth, streamID)
 			if tokenErr != nil {
 				handlerErr = tokenErr
@@ -309,7 +309,7 @@ func (h *HttpServer) handleStreamInit(w http.ResponseWriter, r *http.Request) {
 		}
 	} else {
 		// Exchange init — return state token (carry schema for dynamic methods)
-		token, err := h.packCursorToken(callID, state, auth)
+		token, err := h.packMethodCursorToken(info.Name, callID, state, auth)
 		if err != nil {
 			h.writeHttpError(w, http.StatusInternalServerError, err, nil)
 			return
@@ -486,6 +486,18 @@ func (h *HttpServer) handleStreamExchange(w http.ResponseWriter, r *http.Request
 		h.writeHttpError(w, http.StatusBadRequest, err, nil)
 		return
 	}
+	// A cursor resumes only the method that minted it, and only while its
+	// state still implements the interface that method dispatches on. A
+	// foreign cursor used to reach an unchecked type assertion below (a panic
+	// that net/http answers by aborting the connection) or, for two methods of
+	// the same kind, ran one method's state under another's schema and hooks.
+	// Refused here, before the call is resolved, so no rehydrate callback,
+	// dispatch hook or state method ever sees the foreign state.
+	if tokenData.Method != method || !streamStateFits(info.Type, tokenData.State) {
+		h.writeHttpError(w, http.StatusBadRequest,
+			&RpcError{Type: "RuntimeError", Message: "State token was not issued by this method"}, nil)
+		return
+	}
 	call, err := h.resolveCall(tokenData, callTokenBytes, auth)
 	if err != nil {
 		h.writeHttpError(w, http.StatusBadRequest, err, nil)
@@ -584,6 +596,23 @@ func (h *HttpServer) handleStreamExchange(w http.ResponseWriter, r *http.Request
 	}
 }
 
+// streamStateFits reports whether a rehydrated stream state implements the
+// interface a method of type t dispatches its continuations on. It is what
+// makes the type assertions at the end of handleStreamExchange safe.
+func streamStateFits(t MethodType, state interface{}) bool {
+	_, producer := state.(ProducerState)
+	_, exchange := state.(ExchangeState)
+	switch t {
+	case MethodProducer:
+		return producer
+	case MethodExchange:
+		return exchange
+	case MethodDynamic:
+		return producer || exchange
+	}
+	return false
+}
+
 // handleStreamCancel processes a client-initiated cancel exchange. It invokes
 // the optional StreamCanceller hook on the state and writes an empty IPC
 // stream (no state token) so the client knows the stream is finished.
@@ -639,7 +668,7 @@ func (h *HttpServer) handleProducerContinuation(ctx context.Context, w http.Resp
 	finished, err := h.runProduceLoop(ctx, writer, schema, state, info, stats, auth, transportMeta, cookies, sink, stripFrameworkTickMetadata(requestMeta))
 	if err == nil && !finished {
 		// Batch limit reached — append continuation token
-		token, tokenErr := h.packCursorToken(callID, state, auth)
+		token, tokenErr := h.packMethodCursorToken(info.Name, callID, state, auth)
 		if tokenErr != nil {
 			err = tokenErr
 		} else if werr := writeStateTokenBatch(writer, schema, token, nil); werr != nil {
@@ -721,7 +750,7 @@ func (h *HttpServer) handleExchangeCall(ctx context.Context, w http.ResponseWrit
 	}
 
 	// Serialize updated state into new token (carry schema for dynamic methods)
-	newToken, err := h.packCursorToken(callID, state, auth)
+	newToken, err := h.packMethodCursorToken(info.Name, callID, state, auth)
 	if err != nil {
 		out.releaseBatches()
 		h.logIPCWriteErr("error-batch", info.Name, writeErrorBatch(writer, schema, err, h.server.serverID, "", h.server.debugErrors))
